@@ -434,9 +434,9 @@ def check_C20(tier):
     c = Check("C20", tier, "model_checking")
     t = tier == "thorough"
     consts = lambda edits, seps, perm, stmts=LEX_ALL: {"MaxEdits": edits, "StmtIndexes": set(stmts), "SepChoice": set(seps), "PermuteClauses": perm}
-    runs = [("single", consts(1, range(1, 10), True)),
+    runs = [("single", consts(1, range(1, 13), True)),
             ("perms", consts(4, [], True, {1, 3, 4, 5})),
-            ("pairs", consts(2, [1, 4, 7, 8] if not t else range(1, 10), False, {1, 6, 8, 9} if not t else LEX_ALL))]
+            ("pairs", consts(2, [1, 4, 7, 8, 11] if not t else range(1, 13), False, {1, 6, 8, 9} if not t else LEX_ALL))]
     for name, k in runs:
         r = tlc("MC_Lexical", cfg_text(constants=k, invariants=["LexesAsIntended", "Emit"], view="view"), "lexical-" + name, workers=W, timeout=2400)
         expect_holds(r, "Lexical %s (ideal lexer reads every layout variant as the base token stream)" % name); c.add_tlc(r)
@@ -569,6 +569,7 @@ def check_C18(tier):
     c.extra["engine_max_outdegree"] = int(m.group(1))
     engine_run(c, "determinism-join", "JoinMenu", lines="LinesJ", maxlines=3, maxfiles=1, tdefs=("plain",))
     engine_run(c, "determinism-agg", "AggMenu", lines="LinesAgg", maxlines=2, maxfiles=1, tdefs=("plain",))
+    engine_run(c, "determinism-distinct", "DistinctMenu", lines="Lines4", maxlines=4 if t else 3, maxfiles=1, tdefs=("plain",), modes=("batch", "incr"))
     # repeated executions in one process (laws: repeat) and in fresh processes with fresh hash seeds and other tables defined around
     laws_trace(c, 2 if t else 1, 300 if t else 100)
     trace_check(c, "process", "Trace_Laws", 60 if t else 15, "process", "fresh-process executions of the CLI (byte-identical output)", rounds=2 if t else 1,
